@@ -126,6 +126,8 @@ def _logdst_near_miss(v):
 def input_class(c, p=None):
     """the input class of a panicking case, so that a known finding only covers its own class"""
     fam = c["fam"]
+    if fam == "sec":            # <name>|<type>|<key states>|<order>|<data nil>
+        return "|".join(c["shape"].split("|")[:3])
     if fam == "adv":
         is_logdst = c["shape"].startswith("ann|" + LOGDST_ANN + "|") or (c["shape"].startswith("crd|pol-waf|") and c.get("kind", "").endswith(".logDest"))
         if is_logdst:
@@ -268,6 +270,24 @@ def judge_adversarial(run, cases):
     run.cov["adversarial_values"] = tot
 
 
+def judge_secrets(run, cases):
+    """family sec: every type / key-state shape of the Secrets the fixtures' resources reference, both arrival orders; S only"""
+    n_adm = 0
+    for c in cases:
+        if c.get("error"):
+            run.failing({"kind": "harness-case-error", "fam": "sec"}, [c], "the harness could not run secret shape %s: %s" % (c.get("shape"), c["error"][:300]),
+                        theorem="correspondence harness c17", found_input=False)
+            continue
+        adm = bool(c.get("admitted"))
+        n_adm += adm
+        run.count_case({"fam": "sec", "shape": c["shape"]}, adm)
+        if adm and c.get("panics"):
+            p = c["panics"][0]
+            run.failing(panic_sig(c, p), [c], "an admissible Secret (shape %s) makes the real code panic (%s) in %s: %s" % (c["shape"], p["combo"], p["site"], p["msg"][:120]),
+                        theorem="S: no panic on admissible objects (Secret shapes)")
+    run.cov["secret_shapes"] = {"shapes": len(cases), "admissible": n_adm}
+
+
 def judge_random(run, cases):
     n_adm = 0
     n_acc = 0
@@ -305,10 +325,11 @@ def check(run):
     if rc != 0:
         raise C.TieBroken("c17 harness failed rc=%d: %s" % (rc, log[-1500:]))
     cases = C.read_jsonl(out)
-    shapes = [c for c in cases if c["fam"] not in ("rnd", "inv", "adv")]
+    shapes = [c for c in cases if c["fam"] not in ("rnd", "inv", "adv", "sec")]
     rnd = [c for c in cases if c["fam"] == "rnd"]
     judge_inventory(run, [c for c in cases if c["fam"] == "inv"])
     judge_adversarial(run, [c for c in cases if c["fam"] == "adv"])
+    judge_secrets(run, [c for c in cases if c["fam"] == "sec"])
     counts, roundtrip = model_counts()
     run.add_obligation(roundtrip, "Shapes.Cases.codes_roundtrip", "a shape code does not decode back to its shape")
     rows = evaluate(shapes, run.tier)
@@ -330,7 +351,10 @@ def check(run):
                        "TransportServer / Policy (one per kind) / GlobalConfiguration objects gets every value of a near-miss grammar of its valid value (junk prefix/suffix, "
                        "separator removed / doubled / alone, part emptied, truncation at each separator, only separators, out-of-range numbers, 5000-byte, non-ASCII, control "
                        "characters, quotes, braces, backslashes); validators run under Plus/AppProtect/DoS on and off x the other four flags all on / all off; accepted values go "
-                       "through store, createExtendedResources, the Configurator and the sync function (also as master and as minion annotations).")
+                       "through store, createExtendedResources, the Configurator and the sync function (also as master and as minion annotations).  "
+                       "S, Secret shapes (family sec): each Secret the fixtures reference x type right / Opaque / wrong / empty x every key absent / empty / valid / garbage "
+                       "(and data nil) x both arrival orders, synced through syncSecret against VirtualServers with IngressMTLS / EgressMTLS / JWT / BasicAuth / OIDC / APIKey "
+                       "policies, TLS-terminating VirtualServer / Ingress / TransportServer and an Ingress with basic-auth and JWT annotations.")
     run.cov["trusted_base"] = TRUSTED
     run.assumptions += [
         "built-in kinds: the API server's validation of Ingress/Service/Secret/EndpointSlice is transcribed (not executed): exactly one of service/resource per "
@@ -353,9 +377,10 @@ def replay(run, path):
     if rc != 0:
         raise C.TieBroken("c17 harness failed on replay: %s" % log[-1500:])
     cases = C.read_jsonl(out)
-    shapes = [c for c in cases if c["fam"] not in ("rnd", "inv", "adv")]
+    shapes = [c for c in cases if c["fam"] not in ("rnd", "inv", "adv", "sec")]
     rnd = [c for c in cases if c["fam"] == "rnd"]
     adv = [c for c in cases if c["fam"] == "adv"]
+    sec = [c for c in cases if c["fam"] == "sec"]
     rows = evaluate(shapes, "replay")
     for c in shapes:
         r = rows.get(c["id"])
@@ -368,3 +393,6 @@ def replay(run, path):
     judge_shapes(run, shapes, rows)
     judge_random(run, rnd)
     judge_adversarial(run, adv)
+    for c in sec:
+        print("replay secret shape %s: admitted=%s panics=%s" % (c["shape"], c.get("admitted"), json.dumps(c.get("panics", [])[:2])))
+    judge_secrets(run, sec)
